@@ -3,10 +3,21 @@
 1. TLC model-checks algebraic sanity properties of the reference itself (specs/ops/MC_OnnxAlgebra*.cfg:
    Transpose o Transpose = id, Concat/Split inverse, full-range Slice = id, Reduce over all axes =
    scalar fold, ... on every tensor of tiny shapes).
-2. impl -> spec: `vh-ops onnxref` runs single-operator ONNX models (seeded random shapes, attributes,
-   integer-valued data) through rten::Model::run and records case + outcome; TLC validates the
-   trace with specs/ops/Trace_Onnx.tla, which computes the expected outputs with OnnxOps.OnnxEval
-   and compares shape, dtype and every element."""
+2. impl -> spec: `vh-ops onnxref` runs single-operator ONNX models through rten::Model::run and
+   records case + outcome; TLC validates the trace with specs/ops/Trace_Onnx.tla, which computes the
+   expected outputs with OnnxOps.OnnxEval and compares shape, dtype and every element.  Cases come from
+   (a) a seeded random generator per operator (shapes, attributes drawn uniformly, integer-valued data,
+       inputs as graph inputs / initializers / non-contiguous tensors) with value pools aimed at the
+       rounding and saturation points of the numeric operators (exact ties k+1/2 for even/odd/negative
+       k, odd and even zero points, both output types, per-tensor and per-axis scales, fractional floats
+       next to the ends of the target range for Cast / Round / QuantizeLinear / DynamicQuantizeLinear);
+   (b) attribute GRIDS (`--grid`): the full cross product of the interacting shape-arithmetic
+       attributes over a small size grid - pooling / convolution family: extent 1..8 x kernel 1..4 x
+       stride 1..3 x (pad_begin, pad_end) in 0..2 squared or an auto_pad mode x ceil_mode / dilation
+       (x count_include_pad); Slice start/end/step; Pad mode x begin x end (incl. negative); Resize
+       extent x factor x sizes|scales x coordinate mode x nearest mode; Split; Trilu; Range; TopK.
+       The thorough tier runs the grids completely, the quick tier a seeded sample of GRID_QUICK
+       points per operator."""
 import collections
 import concurrent.futures
 import hashlib
@@ -24,7 +35,11 @@ def op_list(ctx):
     return [o for o in out.strip().split(",") if o]
 
 
-def record(ctx, ops, per, trace):
+GRID_QUICK = 250
+GRID_ALL = 1000000
+
+
+def record(ctx, ops, per, trace, grid=0):
     """Run the harness for `ops`; if the process dies (abort/segv/OOM in the code under test) the
     dying case gets an `abort` outcome record and the run resumes with the next case."""
     first = 1
@@ -32,7 +47,7 @@ def record(ctx, ops, per, trace):
     for attempt in range(50):
         part = trace + ".part%d" % attempt
         rc, out = ctx.run([ctx.bin("vh-ops"), "onnxref", "--out", part, "--ops", ",".join(ops), "--per", str(per),
-                           "--first-id", str(first)],
+                           "--first-id", str(first), "--grid", str(grid)],
                           env={"VERIF_SEED": str(ctx.seed), "VERIF_TIER": ctx.tier}, cwd=ctx.work, timeout=3600)
         parts.append(part)
         if rc == 0:
@@ -114,9 +129,18 @@ def run(ctx):
     if ctx.replay:
         return replay(ctx)
     ops = op_list(ctx)
-    per = 60 if ctx.quick else 1500
-    nchunks = 4 if ctx.quick else 12
-    chunks = [c for c in (ops[i::nchunks] for i in range(nchunks)) if c]
+    per = 50 if ctx.quick else 1500
+    grid = GRID_QUICK if ctx.quick else GRID_ALL
+    # chunks of about equal numbers of cases (greedy, largest operator first)
+    gsz = dict((kv.split(":")[0], int(kv.split(":")[1])) for kv in
+               ctx.harness("vh-ops", ["onnxref", "--list-grids"]).strip().split(",") if ":" in kv)
+    nchunks = 4 if ctx.quick else 16
+    chunks, load = [[] for _ in range(nchunks)], [0] * nchunks
+    for op in sorted(ops, key=lambda o: -(per + min(gsz.get(o, 0), grid))):
+        i = load.index(min(load))
+        chunks[i].append(op)
+        load[i] += per + min(gsz.get(op, 0), grid)
+    chunks = [sorted(c, key=ops.index) for c in chunks if c]
     cfg_text = open(os.path.join(vlib.SPECS, "ops/Trace_Onnx.cfg")).read()
 
     def mc(cfg):
@@ -127,7 +151,7 @@ def run(ctx):
     def work(i):
         # 2. record + validate one chunk of operators
         trace = ctx.path("onnx_%d.ndjson" % i)
-        record(ctx, chunks[i], per, trace)
+        record(ctx, chunks[i], per, trace, grid=grid)
         cfg = ctx.path("Trace_Onnx_chunk%d.cfg" % i)      # distinct name -> distinct TLC metadir
         with open(cfg, "w") as f:
             f.write(cfg_text)
